@@ -60,6 +60,12 @@ def _outcome_kind(text):
         return ("jaqal error",)
 
 
+def _empty_dir():
+    """A directory without any importable module (committed; nothing is written at run time)."""
+    import os
+    return os.path.join(os.path.dirname(os.path.dirname(os.path.abspath(__file__))), "empty_import_dir")
+
+
 def c16_total(s: str, pre: str, post: str, entry: int) -> str:
     text = pre + s + post
     try:
@@ -69,6 +75,10 @@ def c16_total(s: str, pre: str, post: str, entry: int) -> str:
                 return f"returned {type(r).__name__} for {text!r}"
         elif entry == 1:
             parse_to_sexpression(text)
+        elif entry == 3:
+            # pulse autoloading on (the default), modules looked up relative to an empty directory
+            import importlib.util
+            r = parse_jaqal_string(text, import_path=_empty_dir())
         else:
             from jaqalpaq.run import run_jaqal_string
             run_jaqal_string(text)
@@ -84,6 +94,17 @@ def c16_total(s: str, pre: str, post: str, entry: int) -> str:
     except Exception as ex:
         return f"{exc(ex)} escaped for {text!r}"
     return ""
+
+
+MODCHARS = ["", ".", "a", "_", "1", "b", " "]
+
+
+def c16_usepulses(c0: int, c1: int, c2: int) -> str:
+    """'from <name> usepulses *' with pulse autoloading on (the default) and an import directory without
+    modules; the name is three solver-chosen picks from MODCHARS (one representative per character class
+    the lexer distinguishes in a module name, plus the empty string)."""
+    name = MODCHARS[c0] + MODCHARS[c1] + MODCHARS[c2]
+    return concretely(c16_total, name, "from ", " usepulses *\n", 3)
 
 
 SEMANTIC = [
